@@ -813,6 +813,16 @@ impl Exec {
                 }
             }
         }
+        // content of every observable frame stays retrievable (other frames may share it)
+        for m in &live {
+            if let Some(h) = &m.frame.hash {
+                if store.get(&m.frame.id).is_some() {
+                    if let Err(e) = store.cas_read_sync(h) {
+                        self.add(finding("cas.missing", &["C10"], format!("frame {} is observable but its content {} is not retrievable: {}", self.describe(&m.frame), h, e)));
+                    }
+                }
+            }
+        }
         for id in self.gone.clone() {
             if let Some(g) = store.get(&id) {
                 let owners: &[&str] = if g.ttl == Some(TTL::Ephemeral) {
